@@ -2,3 +2,5 @@ import TsVerif.C15.Props
 #print axioms TsVerif.C15.sim_preserves
 #print axioms TsVerif.C15.findSim_sound
 #print axioms TsVerif.C15.optimised_preserves_accepted
+#print axioms TsVerif.C15.tables_equivalent
+#print axioms TsVerif.C15.canonicalize_perm
